@@ -206,7 +206,7 @@ def gen_lean():
            "  Offsets, widths and bit positions are written from the protocol layouts, not from the library's headers.", "-/",
            "import AsamCmp.Fields", "namespace AsamCmp.Layout", "open AsamCmp", ""]
     for cname, (ctype, kind, size, default, fields) in CLASSES.items():
-        out.append("def %s : ClassLayout :=" % cname)
+        out.append("def c_%s : ClassLayout :=" % cname)
         out.append("  { name := \"%s\", size := %d, dflt := \"%s\"," % (cname, size, default))
         out.append("    fields := [")
         rows = []
@@ -217,7 +217,7 @@ def gen_lean():
         out.append(",\n".join(rows))
         out.append("    ] }")
         out.append("")
-    out.append("def all : List ClassLayout := [" + ", ".join(CLASSES.keys()) + "]")
+    out.append("def all : List ClassLayout := [" + ", ".join("c_" + k for k in CLASSES.keys()) + "]")
     out.append("")
     out.append("end AsamCmp.Layout")
     return "\n".join(out) + "\n"
